@@ -333,10 +333,11 @@ fn concurrent(ctx: &Ctx) {
                 }
             }
         }
-        // final sequential invariants
-        let g = cache.read().unwrap();
+        // final sequential invariants (after a panic the lock is poisoned and the cache may be half-updated: the panic itself
+        // is the finding, a handler would have died with it)
+        let g = cache.read().unwrap_or_else(|e| e.into_inner());
         let mut total = 0;
-        for ((k, h), v) in &model {
+        for ((k, h), v) in model.iter().filter(|_| !panicked) {
             if let Some(it) = g.get(&key_name(*k), *h as usize) {
                 total += it.data.len();
                 if &it.data != v {
